@@ -8,30 +8,51 @@ shape as parsing the concatenation of those ranges as a stand-alone text, with e
 mapped back to document coordinates, and no leaf covers excluded text. The range setter accepts
 exactly the ordered, non-overlapping lists, and the tree reports the ranges it was parsed with."
 
-Clause map (theorems are about the ports in `Lexer.lean`, tied to `lib/src/lexer.c` by scripted
-runs of the real lexer, `checks/c13.py`):
+Clause-by-clause map (property sentence → theorem; PROVED = kernel-checked ∀-theorem about the ports in
+`Lexer.lean` / `Stream.lean`, which are tied to `lib/src/lexer.c` by scripted runs of the real lexer,
+`checks/c13.py`; JUDGED = decided on every real output by the Lean judge `Judge.lean`):
 
-* "the setter accepts exactly the ordered, non-overlapping lists"  → `ranges_valid_iff`, `set_ranges_accepts_iff`
-* nothing is assigned on failure / the list is stored on success   → `set_ranges_reject_keeps`, `set_ranges_assigns`
-* the Rust wrapper's error index is the first offending index       → `first_bad_index_spec`, `first_bad_exists`
-* positions map back by ψ: crossing a seam neither loses nor gains
-  bytes of the concatenation (empty and adjacent ranges included)    → `seam_offset_preserved`
-* token ends lie on an included range (closed)                       → `mark_end_on_range`
-* "same characters as the concatenation"                            → `stream_concat` (+ `stream_concat_text`):
-  under `RangesOnCharBoundaries` (= `FitRun`: along the run no character straddles a range end and an
-  ill-formed byte is at least four bytes before one) the sequence of (code point or error, size) and the
-  EOF seen over (document, ranges) is the one seen over the concatenation; offsets are related by ψ in the
-  form of the invariant "what is left of the concatenation at the lexer's document position"
-  (`skipL_remC`; numerically `seam_offset_preserved`).  `char_split_witness`: without the hypothesis the
-  streams differ (finding C13-char-splitting-range-boundary).  The theorem is about `rangedChars`, the
-  character logic of the port over ranges (skip loop, EOF, decode from the unclipped document, advance);
-  that the full port (`start`/`advance`, chunks, columns, BOM, fast path) produces that sequence is
-  checked by the driver on every real case (`model:rangedChars=lexStream`), OPEN as a theorem.
-* characters consumed all come from included bytes                  → `token_inside`
-* "same tree shape", "tree reports its ranges", "no leaf covers excluded text" → decided per real
-  case by the Lean judge (`Judge.lean`); conventions: a leaf *boundary* may not lie strictly inside
-  excluded text (the literal reading — no byte of a leaf is excluded — is false by construction:
-  a token continuing across a gap contains the gap, finding C13-literal-leaf-spans-gap).
+1. "Parsing a document restricted to a list of included ranges yields the same tree shape as parsing the
+   concatenation of those ranges as a stand-alone text"
+   * PROVED, lexer level — `stream_concat` (+ `stream_concat_text`): under `RangesOnCharBoundaries` (= `FitRun`:
+     along the run no character straddles a range end and an ill-formed byte is at least four bytes before one;
+     decidable, evaluated per real case) the sequence of (code point or error, size) and the EOF seen over
+     (document, ranges) is the one seen over the concatenation.  `char_split_witness`: without the hypothesis the
+     streams differ (finding C13-char-splitting-range-boundary).  The theorem is about `rangedChars`, the character
+     logic of the port over ranges (skip loop, EOF, decode from the unclipped document, advance); that the full
+     port (`start`/`advance`, chunks, columns, BOM, fast path) produces that sequence is checked by the driver
+     on every real case (`model:rangedChars=lexStream`), OPEN as a theorem.
+   * PROVED, tree level, for DETERMINISTIC parsing only — `TreeLevel.lean`: `driver_concat` (any lex-mode-driven
+     lex/parse loop that reads the text only through the observation sequence ends in the same parser state) and
+     `tree_shape_concat` (w-incr's LR machine with extras, `C01.LR` + `steps_skel`: token lists with the same
+     symbols — sizes in document resp. concatenation coordinates — go through the same states and build trees of
+     the same shape).  Corollaries of `stream_concat` by congruence; the modelling claim behind them (the parser
+     is a function of the observation sequence: no GLR, no error recovery, no external scanner, no `get_column`)
+     is not proved against the C code.
+   * JUDGED, tree level, all parses (GLR, error recovery, external scanners included) — `cmpTree` on the dumps of
+     both real trees; where the claim is genuinely false the judge says so (findings C13-error-recovery,
+     C13-char-splitting-range-boundary, C13-range-beyond-eof-boundary; column-sensitive scanners are compared only
+     when no gap contains a newline).
+2. "with every node position mapped back to document coordinates"
+   * PROVED, lexer level — `seam_offset_preserved`: crossing a seam neither loses nor gains bytes of the
+     concatenation (empty and adjacent ranges included); `skipL_remC` (the invariant of `stream_concat`: what is
+     left of the concatenation at the lexer's document position); `mark_end_on_range`: token ends lie on an
+     included range (closed).
+   * JUDGED, tree level — every node's start/end (bytes and points) is the ψ-image of the concatenation node's
+     (`psiRight` for starts, `psiLeft` for ends; zero-width leaves by the convention below).
+3. "and no leaf covers excluded text"
+   * PROVED, lexer level — `token_inside`: every character the lexer consumes lies inside one of the ranges and
+     inside the document.
+   * JUDGED, tree level — a leaf *boundary* may not lie strictly inside excluded text (the literal reading — no
+     byte of a leaf is excluded — is false by construction: a token continuing across a gap contains the gap,
+     finding C13-literal-leaf-spans-gap).
+4. "The range setter accepts exactly the ordered, non-overlapping lists"
+   * PROVED — `ranges_valid_iff`, `set_ranges_accepts_iff`; nothing is assigned on failure / the list is stored
+     on success: `set_ranges_reject_keeps`, `set_ranges_assigns`; the Rust wrapper's error index is the first
+     offending index: `first_bad_index_spec`, `first_bad_exists`.  Tied to the real setter per generated list.
+5. "and the tree reports the ranges it was parsed with"
+   * JUDGED — `Tree::included_ranges` of the real tree equals the list handed to the setter (empty list → the
+     whole-document range); no theorem (the value is copied by `ts_tree_new`, outside the lexer port).
 
 Boundary conventions: ranges are half-open in bytes; `ψ` is right-biased for starts and
 left-biased for ends; empty ranges include nothing.
